@@ -4,12 +4,36 @@ from common import freephil, enc, obj_j, call_j, line_of, attr_j, AutoT, tokeniz
 from values import pval_j
 
 
-def gen(rng, nested=False, n_sources=None, **kw):
+def gen(rng, nested=False, n_sources=None, variables=False, **kw):
     tree = mgen.MasterGen(rng, depth=rng.choice([0, 1, 1, 2, 3]), nested_multiples=nested, **kw).tree()
     mt = mgen.render_master(tree)
     k = n_sources if n_sources is not None else rng.choice([0, 1, 1, 2, 3])
-    srcs = [mgen.SourceGen(rng).text(tree) for _ in range(k)]
+    srcs = [mgen.SourceGen(rng, variables=variables).text(tree) for _ in range(k)]
     return tree, mt, srcs
+
+
+ENV_CHOICES = (("PHILENV_A", "7"), ("PHILENV_B", "x y"))
+
+
+def gen_env(rng):
+    return {k: v for k, v in ENV_CHOICES if rng.random() < 0.6}
+
+
+class env_as:
+    """install a table as os.environ while calling the implementation"""
+
+    def __init__(self, table):
+        self.table = dict(table)
+
+    def __enter__(self):
+        import os
+        self.saved = os.environ
+        os.environ = self.table
+        return self
+
+    def __exit__(self, *a):
+        import os
+        os.environ = self.saved
 
 
 def has_nested_multiple(nodes, inside=False):
@@ -23,9 +47,14 @@ def has_nested_multiple(nodes, inside=False):
     return False
 
 
-def fetch_req(mt, srcs, diff=False):
-    ev, fm = mgen.tables([mt] + srcs)
-    return ["fetch", enc(mt), [enc(s) for s in srcs], diff, ev, fm]
+def fetch_req(mt, srcs, diff=False, env=None):
+    """env: the os.environ table for $variables (None = variable-free request)"""
+    extra = [] if not env else ["zz_env_%d = %s\n" % (i, v) for i, v in enumerate(env.values()) if v.strip()]
+    ev, fm = mgen.tables([mt] + srcs + extra)
+    req = ["fetch", enc(mt), [enc(s) for s in srcs], diff, ev, fm]
+    if env is not None:
+        req.append([[enc(k), enc(v)] for k, v in env.items()])
+    return req
 
 
 def to_pval(x):
